@@ -90,6 +90,18 @@ CLAIMED = {
         technique='key-projection and hash-shape extraction from MIR / impl tables (static analysis)',
         engine='C',
     ),
+    'C10': dict(
+        category='model_checking',
+        text='Claimed in part. All 51 symbolic paths of PathMutImpl::{push, pop, clear, normalize}, in place (window = path span of any enclosing buffer) and stand-alone, are explored with affine values: '
+             'Δ(self.end) equals the net length change of the splices, start is fixed, every splice lies inside [start, end] (so scheme/authority before and query/fragment after are never touched), '
+             'holes are tiled exactly, no usize subtraction underflows (pop\'s backward loop keeps its index in the window) — an inductive invariant, hence it holds over any sequence of edits through one handle. '
+             'Handle wiring (find_path window, follows_authority from find_authority), composites without own splices, leading "/" outside every rewritten window, family twins.',
+        design_ref='DESIGN.md §3 Engine D (D1, D2, D4), §4 C10',
+        note='NOT decided: list semantics of push/pop/symbolic push (values), relative-stays-relative. Genuine defect F9 (push of an empty segment after a trailing "./" underflowed the end offset: panic in debug builds) '
+             'was found by the underflow rule and repaired by a fix: commit.',
+        technique='path-sensitive affine symbolic evaluation of MIR with loop havoc (effect analysis, static analysis)',
+        engine='D',
+    ),
     'C11': dict(
         category='model_checking',
         text='All symbolic paths of set_userinfo/set_host/set_port (None and Some) are explored with affine values: Δ(self.end) equals the net length change of the splices, '
